@@ -474,30 +474,30 @@ def run(ctx: Any) -> None:
             url_known = path == "socket" or j["known"]
             conf = j["conf"] and (path == "socket" or d["endpoint"] == ("init" if j["stream"] else "unary"))
             if escaped is not None:
-                ctx.violation("exception-escapes-dispatch", f"{path}: {escaped} escaped instead of an error reply", rp)
+                ctx.violation("exception-escapes-dispatch", f"{pathname}: {escaped} escaped instead of an error reply", rp)
             if len(invoked) > 1:
-                ctx.violation("method-invoked-twice", f"{path}: one request ran the method {len(invoked)} times", rp)
+                ctx.violation("method-invoked-twice", f"{pathname}: one request ran the method {len(invoked)} times", rp)
             if invoked and not conf:
                 ctx.violation(
                     "method-invoked-on-nonconforming-shm-routed-request" if shm_routed else "method-invoked-on-nonconforming-request",
                     f"{pathname}: the method ran although the {'batch its arguments were decoded from (resolved from shared memory)' if shm_routed else 'request'} does not conform ({labels_s})", rp)
             if invoked and invoked[0][0] != target:
-                ctx.violation("wrong-method-invoked", f"{path}: method {invoked[0][0]} ran for a request addressed to {target}", rp)
+                ctx.violation("wrong-method-invoked", f"{pathname}: method {invoked[0][0]} ran for a request addressed to {target}", rp)
             if invoked and conf:
                 got = invoked[0][1]
                 if list(got) != [p[0] for p in params]:
-                    ctx.violation("method-invoked-with-wrong-argument-names", f"{path}: arguments {list(got)} for parameters {[p[0] for p in params]}", rp)
+                    ctx.violation("method-invoked-with-wrong-argument-names", f"{pathname}: arguments {list(got)} for parameters {[p[0] for p in params]}", rp)
                 else:
                     for p, v in zip(params, pyvals):
                         want = v
                         if v is not None:
                             want = _deserialize_value(v, srv._methods[target].param_types[p[0]])
                         if got[p[0]] != want or type(got[p[0]]) is not type(want):
-                            ctx.violation("method-invoked-with-altered-argument", f"{path}: parameter {p[0]} received {got[p[0]]!r}, request carried {want!r}", rp)
+                            ctx.violation("method-invoked-with-altered-argument", f"{pathname}: parameter {p[0]} received {got[p[0]]!r}, request carried {want!r}", rp)
             if conf and decodable and not invoked:
-                ctx.violation("conforming-request-refused", f"{path}: a conforming request was not dispatched: {err}", rp)
+                ctx.violation("conforming-request-refused", f"{pathname}: a conforming request was not dispatched: {err}", rp)
             if conf and not decodable and invoked:
-                ctx.violation("method-invoked-with-unconvertible-value", f"{path}: the method ran with a value that has no declared conversion", rp)
+                ctx.violation("method-invoked-with-unconvertible-value", f"{pathname}: the method ran with a value that has no declared conversion", rp)
             if not invoked and not (conf and decodable):
                 if path == "socket":
                     if err is None and not handshake:
@@ -516,12 +516,12 @@ def run(ctx: Any) -> None:
                 exc = behs[beh]()
                 text = str(exc)
                 if err is None or err[0] != type(exc).__name__ or text not in err[1]:
-                    ctx.violation("method-error-not-reported-as-its-own", f"{path}: method raised {type(exc).__name__}({text!r}) but the client is told {err}", rp)
+                    ctx.violation("method-error-not-reported-as-its-own", f"{pathname}: method raised {type(exc).__name__}({text!r}) but the client is told {err}", rp)
                 if path == "http" and (status != 200 or not marker):
                     ctx.violation("method-error-reported-as-request-error" if status == 400 else "method-error-wrong-http-shape", f"http: method raised {type(exc).__name__}; answered {status} marker={marker}", rp)
             if invoked and beh == "ok":
                 if err is not None or (path == "http" and (status != 200 or marker)):
-                    ctx.violation("successful-call-reported-as-error", f"{path}: method returned normally; answer {status} marker={marker} error={err}", rp)
+                    ctx.violation("successful-call-reported-as-error", f"{pathname}: method returned normally; answer {status} marker={marker} error={err}", rp)
             if path == "http" and status == 400 and invoked:
                 ctx.violation("http-400-after-invocation", "http: 400 although the method ran", rp)
             # ---- model case ------------------------------------------------------------------------------------
